@@ -238,6 +238,9 @@ static void run_case(const xcase_t *c)
 
     if (!strcmp(PROP, "C07")) {
         G->judged++;
+        /* threshold 0 with a forced tiny first pivot (scal 6): elimination without pivoting is unstable by design, multipliers of 2^50 can cancel a later
+           pivot to EXACTLY zero in working precision; 0 < info <= n is then a truthful report, not judged (false alarm of the first thorough run) */
+        if (c->scal == 6 && c->u == 0.0 && res->info > 0 && res->info <= n) { G->skipped++; goto cleanup; }
         if (!(res->info == 0 || res->info == n + 1)) { char sig[64]; snprintf(sig, sizeof sig, "C07:info:tr=%d", c->trans); viol(sig, cs, "nonsingular input (cond1=%.3Lg) but info=%d (xerbla calls=%d last=%s/%d)", cond1, res->info, res->xerbla_calls, res->xerbla_name, res->xerbla_info); goto cleanup; }
         if (res->xerbla_calls) { char sig[96]; snprintf(sig, sizeof sig, "C07:inner-error:%s:tr=%d", res->xerbla_name, c->trans); viol(sig, cs, "legal call, but the error handler was invoked by %s (argument %d) and the driver returned info=%d", res->xerbla_name, res->xerbla_info, res->info); }
         /* A_out and B_out are A_in and B_in scaled as the flag and the vectors say */
